@@ -62,6 +62,8 @@ TRUSTED_EXTRA = (
     "their own value/Jacobian pairs are the universally quantified parameters of the theorems",
     "C10: rounded stream bound 2^-40 x majorant (same expression with absolute values); KS/IKS against mpmath at 60 digits, bound 2^-36",
     "C10: exp/log of the smooth aggregations are not modelled in the executable model (noncomputable real-analysis model in Analysis/C10Aggregation.lean)",
+    "C10: sessions - the current parameters of a function object are what its public getters return after each edit (read back exactly); "
+    "objects hold their parameters by value in the model (the harness gives every object its own arrays: no aliasing between objects)",
 )
 
 # --------------------------------------------------------------------------- generation
